@@ -362,6 +362,10 @@ def exec (env : Env) (line : String) : String :=
         | .done d rest => s!"ok D={d} used={tape.length - rest.length} warn={r.sepWarnings cfg}"
         | .fault => "panic fault"
         | .zero => "panic zero"
+    else if op == "wlent0" then
+      -- Entropy() at lengths below 1, where the integer D of the model does not exist (the value is
+      -- negative or not a number): judged by the harness against the property's formula itself
+      "ok formula"
     else if op == "wlcell" then
       let cfg := cfgOf as
       let (ws, title) := wordsAndTitle as
